@@ -59,6 +59,8 @@ def _finish(rec, shape, P, kinds, want, dist, size, sig, case):
     # single-point calls: shape (3,) and (1,3)
     for t in range(min(n, 4)):
         i = (case["single"] + 7 * t) % n
+        if not safe[i]:
+            continue
         one = call(shape.is_inside, P[i].copy())
         if isinstance(one, Raised):
             rec.fail("is_inside_single", dict(sig, type=one.type), msg=one.msg)
@@ -72,7 +74,8 @@ def _finish(rec, shape, P, kinds, want, dist, size, sig, case):
     if n > 1:
         p = perm_from_noise(case["perm"], n)
         gp = call(shape.is_inside, P[p].copy())
-        rec.check(not isinstance(gp, Raised) and np.array_equal(np.asarray(gp), got[p]), "permuted_batch", sig)
+        okp = not isinstance(gp, Raised) and np.asarray(gp).shape == (n,) and np.array_equal(np.asarray(gp)[safe[p]], got[p][safe[p]])
+        rec.check(okp, "permuted_batch", sig)
     near = bool(np.any(safe & (dist < 0.05 * size)))
     rec.label("near_boundary" if near else None, "aligned" if np.any(kinds == 2) else None, "batch%d" % n)
     return near or bool(np.any(kinds == 2))
@@ -202,11 +205,11 @@ def _ball(case, rec, cls):
 
 def clauses():
     return [
-        Clause("convex", _case("convex"), _convex, quick=240, thorough=6000, rule="ConvexPolyhedron", floors={"near_boundary": 0.5}),
+        Clause("convex", _case("convex"), _convex, quick=240, thorough=6000, rule="ConvexPolyhedron", floors={"near_boundary": 0.25}),
         Clause("mesh", _case("mesh"), _mesh, quick=200, thorough=5000, rule="Polyhedron incl. non-convex",
-               floors={"near_boundary": 0.5, "pocket_point": 0.1, "aligned": 0.3}),
+               floors={"near_boundary": 0.25, "pocket_point": 0.08, "aligned": 0.15}),
         Clause("sphero", _case("sphero"), _sphero, quick=160, thorough=4000, rule="ConvexSpheropolyhedron",
-               floors={"rounding_band_point": 0.3, "r=0": 0.03}),
+               floors={"rounding_band_point": 0.2, "r=0": 0.03}),
         Clause("sphere", _case("sphere"), lambda c, r: _ball(c, r, "Sphere"), quick=300, thorough=6000, rule="Sphere", floors={}),
         Clause("ellipsoid", _case("ellipsoid"), lambda c, r: _ball(c, r, "Ellipsoid"), quick=300, thorough=6000, rule="Ellipsoid", floors={}),
     ]
